@@ -28,6 +28,7 @@ RULE = ('one evaluation = one seeded run: a sequence of 10-80 calls f(*args, **k
         'callers under the seeded scheduler with a slow function on the virtual clock; non-trivial = at least one cache hit; '
         'distinct = SHA-256 of the case / event log')
 RULE += ' ' + 'The argument alphabet includes long (2 KB) str / bytes arguments in pairs that agree in length, first and last kilobyte, byte sum and Adler-32.'
+RULE += ' ' + 'Keyword names include parameter names of the memoizing machinery (ignore, typed, base, name, expire, tag, key, args, kwargs, self, func, default, retry); one seed in 97 passes the same argument once as one object twice and once as two equal objects.'
 ASSUMPTIONS = ['the probe function ignores the arguments listed in `ignore` (a function whose result depends on ignored arguments is outside the contract)',
                'without typed=True, numerically equal arguments (1, 1.0, True) may or may not share an entry; results are compared with ==']
 PROBES = ('hits', 'expired_recompute', 'stampede_threads', 'typed_runs', 'ignore_runs', 'functions', 'raising_calls', 'falsy_results', 'keys_compared_across_interpreters', 'identity_pairs')
@@ -46,7 +47,9 @@ ALPHA = [1, {'f': '1.0'}, True, None, 'a', 'x', 2, {'t': [1]}, {'i': str(2 ** 53
 _PAD = 'lorem ipsum ' * 170
 ALPHA += ['TOTAL: 131 ' + _PAD, 'TOTAL: 212 ' + _PAD, _PAD + ' page 131 ' + _PAD, _PAD + ' page 212 ' + _PAD,
           _PAD + 'a', _PAD + 'b', 'a' + _PAD, {'b': ('aca' + 'z' * 1500).encode().hex()}, {'b': ('bab' + 'z' * 1500).encode().hex()}]
-KW = ['a', 'x', 'b']
+KW = ['a', 'x', 'b',
+      # keyword names of the user's function that are also parameter names somewhere in the memoizing machinery
+      'ignore', 'typed', 'base', 'name', 'expire', 'tag', 'key', 'args', 'kwargs', 'self', 'func', 'default', 'retry']
 
 
 FNAMES = [['m1', 'f'], ['m2', 'f'], ['m1', 'A.f'], ['m1', 'B.f'], ['m1', 'g'], ['m1.f', 'g'], ['m1', 'f.<locals>.g']]
